@@ -140,3 +140,16 @@ def to_monitor(raw, settled: bool, probe_lost: bool, starved: bool):
             s = "starved" if starved else ("probe-lost" if probe_lost else "")
             out.append(ev("End", x, k=x["tasks"], r="settled" if settled and not x.get("spin") else "", s=s))
     return out
+
+
+def conformance_log(raw):
+    """the events the implementation-shaped model (N2KClient) emits, in recorded order, up to the end of the session"""
+    res = []
+    for x in raw:
+        if x["e"] == "End":
+            break
+        if x["e"] == "Feed":
+            res.append(ev("Feed", x, conn=x["conn"]))
+        else:
+            res += [e for e in to_monitor([x], False, False, False) if e["e"] != "Spin"]
+    return res
